@@ -13,6 +13,18 @@ package sgip12
 //@   theory T1
 //@   layout dec
 
+//@ func (b *Bind) GetCommand
+//@   layout cmd
+
+//@ func (b *Bind) GenEmptyResponse
+//@   layout resp
+
+//@ func (p *Bind) SetSequenceID
+//@   layout setseq
+
+//@ func (b *Bind) GetSequenceID
+//@   layout getseq
+
 //@ func (p *BindResp) IEncode
 //@   theory T1
 //@   layout enc
@@ -20,6 +32,18 @@ package sgip12
 //@ func (p *BindResp) IDecode
 //@   theory T1
 //@   layout dec
+
+//@ func (b *BindResp) GetCommand
+//@   layout cmd
+
+//@ func (b *BindResp) GenEmptyResponse
+//@   layout resp
+
+//@ func (p *BindResp) SetSequenceID
+//@   layout setseq
+
+//@ func (b *BindResp) GetSequenceID
+//@   layout getseq
 
 //@ func (p *Unbind) IEncode
 //@   theory T1
@@ -29,6 +53,18 @@ package sgip12
 //@   theory T1
 //@   layout dec
 
+//@ func (u *Unbind) GetCommand
+//@   layout cmd
+
+//@ func (u *Unbind) GenEmptyResponse
+//@   layout resp
+
+//@ func (p *Unbind) SetSequenceID
+//@   layout setseq
+
+//@ func (u *Unbind) GetSequenceID
+//@   layout getseq
+
 //@ func (p *UnbindResp) IEncode
 //@   theory T1
 //@   layout enc
@@ -36,6 +72,18 @@ package sgip12
 //@ func (p *UnbindResp) IDecode
 //@   theory T1
 //@   layout dec
+
+//@ func (u *UnbindResp) GetCommand
+//@   layout cmd
+
+//@ func (u *UnbindResp) GenEmptyResponse
+//@   layout resp
+
+//@ func (p *UnbindResp) SetSequenceID
+//@   layout setseq
+
+//@ func (u *UnbindResp) GetSequenceID
+//@   layout getseq
 
 //@ func (p *Submit) IEncode
 //@   theory T1
@@ -45,6 +93,18 @@ package sgip12
 //@   theory T1
 //@   layout dec
 
+//@ func (s *Submit) GetCommand
+//@   layout cmd
+
+//@ func (s *Submit) GenEmptyResponse
+//@   layout resp
+
+//@ func (p *Submit) SetSequenceID
+//@   layout setseq
+
+//@ func (s *Submit) GetSequenceID
+//@   layout getseq
+
 //@ func (p *SubmitResp) IEncode
 //@   theory T1
 //@   layout enc
@@ -52,6 +112,18 @@ package sgip12
 //@ func (p *SubmitResp) IDecode
 //@   theory T1
 //@   layout dec
+
+//@ func (s *SubmitResp) GetCommand
+//@   layout cmd
+
+//@ func (s *SubmitResp) GenEmptyResponse
+//@   layout resp
+
+//@ func (p *SubmitResp) SetSequenceID
+//@   layout setseq
+
+//@ func (s *SubmitResp) GetSequenceID
+//@   layout getseq
 
 //@ func (p *Deliver) IEncode
 //@   theory T1
@@ -61,6 +133,18 @@ package sgip12
 //@   theory T1
 //@   layout dec
 
+//@ func (d *Deliver) GetCommand
+//@   layout cmd
+
+//@ func (d *Deliver) GenEmptyResponse
+//@   layout resp
+
+//@ func (p *Deliver) SetSequenceID
+//@   layout setseq
+
+//@ func (d *Deliver) GetSequenceID
+//@   layout getseq
+
 //@ func (p *DeliverResp) IEncode
 //@   theory T1
 //@   layout enc
@@ -68,6 +152,18 @@ package sgip12
 //@ func (p *DeliverResp) IDecode
 //@   theory T1
 //@   layout dec
+
+//@ func (d *DeliverResp) GetCommand
+//@   layout cmd
+
+//@ func (d *DeliverResp) GenEmptyResponse
+//@   layout resp
+
+//@ func (p *DeliverResp) SetSequenceID
+//@   layout setseq
+
+//@ func (d *DeliverResp) GetSequenceID
+//@   layout getseq
 
 //@ func (p *Report) IEncode
 //@   theory T1
@@ -77,6 +173,18 @@ package sgip12
 //@   theory T1
 //@   layout dec
 
+//@ func (r *Report) GetCommand
+//@   layout cmd
+
+//@ func (r *Report) GenEmptyResponse
+//@   layout resp
+
+//@ func (p *Report) SetSequenceID
+//@   layout setseq
+
+//@ func (r *Report) GetSequenceID
+//@   layout getseq
+
 //@ func (p *ReportResp) IEncode
 //@   theory T1
 //@   layout enc
@@ -85,4 +193,40 @@ package sgip12
 //@   theory T1
 //@   layout dec
 
+//@ func (r *ReportResp) GetCommand
+//@   layout cmd
+
+//@ func (r *ReportResp) GenEmptyResponse
+//@   layout resp
+
+//@ func (p *ReportResp) SetSequenceID
+//@   layout setseq
+
+//@ func (r *ReportResp) GetSequenceID
+//@   layout getseq
+
+//@ func DecodeSGIP12
+//@   layout dispatch
+
 // ---- hand-written below ----
+
+//@ func (p *Submit) IEncode
+//@   loop 1
+//@     invariant packet.winv(b)
+//@     invariant 0 <= i && i <= int(p.UserCount)
+//@     invariant entry(packet.wfailed(b)) ==> packet.wfailed(b)
+//@     invariant !entry(packet.wfailed(b)) && (forall j int :: 0 <= j && j < i ==> len(p.UserNumber[j]) <= 21) ==> !packet.wfailed(b) && packet.view(b) == cat(entry(packet.view(b)), rep(elems(p.UserNumber), 21, 0, i))
+//@     decreases int(p.UserCount) - i
+
+//@ func (p *Submit) IDecode
+//@   loop 1
+//@     invariant packet.rinv(b)
+//@     invariant 0 <= i && i <= int(p.UserCount)
+//@     invariant len(p.UserNumber) == i
+//@     invariant entry(packet.rfailed(b)) ==> packet.rfailed(b)
+//@     invariant !packet.rfailed(b) ==> len(packet.rem(b)) <= entry(len(packet.rem(b)))
+//@     invariant alloc <= entry(alloc) + 106 * i
+//@     invariant @dec !packet.rfailed(b) && packet.rem(b) == cat(rep(elems(gq.UserNumber), 21, i, len(gq.UserNumber)), laysuffix(gq, "UserNumber"))
+//@     invariant @dec forall j int :: 0 <= j && j < i ==> p.UserNumber[j] == gq.UserNumber[j]
+//@     invariant @safe !packet.rfailed(b) ==> (forall j int :: 0 <= j && j < i ==> nonul(p.UserNumber[j]) && len(p.UserNumber[j]) <= 21)
+//@     decreases int(p.UserCount) - i
